@@ -213,6 +213,7 @@ type cntCtx struct {
 	sites    map[*types.Var][]cntSite
 	assigned map[*types.Var][]ast.Node
 	trailLen int
+	altElem  bool
 }
 
 func (w *Walker) bindLoopVars(rng *ast.RangeStmt, table *Term, st *State, loopID string) {
@@ -262,6 +263,11 @@ func (w *Walker) noteCounter(v *types.Var, kind string, st *State) {
 	if start > len(st.TrailL) {
 		start = len(st.TrailL)
 	}
+	// index-style loops: T[key] is the element
+	elemAlt := ""
+	if cc.table != nil {
+		elemAlt = cc.table.S + "[l:rangekey:" + cc.loopID + ":" + cc.table.S + "]"
+	}
 	for _, l := range st.TrailL[start:] {
 		key := l.A.S
 		if !l.Pos {
@@ -270,6 +276,10 @@ func (w *Walker) noteCounter(v *types.Var, kind string, st *State) {
 		if elemPrefix != "" && strings.Contains(key, elemPrefix) {
 			lits = append(lits, strings.ReplaceAll(key, elemPrefix, "e"))
 			plits = append(plits, l)
+		} else if elemAlt != "" && strings.Contains(key, elemAlt) {
+			lits = append(lits, strings.ReplaceAll(key, elemAlt, "e"))
+			plits = append(plits, l)
+			cc.altElem = true
 		} else {
 			lits = append(lits, "?"+key)
 		}
@@ -309,6 +319,9 @@ func (w *Walker) counterTerm(v *types.Var, init *Term, cc *cntCtx) *Term {
 		t := mkTerm(KCount, name)
 		t.Phi = sites[0].lits
 		t.ElemS = "elem(" + cc.table.S + ")#" + cc.loopID
+		if cc.altElem {
+			t.ElemS = cc.table.S + "[l:rangekey:" + cc.loopID + ":" + cc.table.S + "]"
+		}
 		t.Table = cc.table.S
 		t.Reads = append([]string{}, cc.table.Reads...)
 		// phi may read other state (ViewNumber): collect from phi text
